@@ -664,6 +664,21 @@ def dictionary_property(out, q, seed):
     summary_stage(out, q, seed)
 
 
+def dictionary_random_stage(out, q, seed, err_filter, name):
+    """seeded dictionary histories (generations of merges, demotion of formerly coded strings, unbalanced
+    sources, all first bytes) for properties other than C07: only the rejections selected by err_filter count"""
+    wd = os.path.join(WORK, out.prop)
+    os.makedirs(wd, exist_ok=True)
+    g = os.path.join(wd, name + ".scn")
+    rc, o = sh([BIN["release"], "dict-gen", "--seed", str(seed * 1000 + 7), "--count", str(36 if q else 240), "--out", g])
+    if rc != 0:
+        raise ToolError("dict-gen failed")
+    validate_traces(out, name + "-traces", "TraceDict.tla", os.path.join(SPEC, "TraceDict.cfg"), dict_jobs(out, name, g, 5),
+                    timeout=3000, err_filter=err_filter)
+    for j in glob.glob(os.path.join(wd, "*.ndjson")):
+        os.remove(j)
+
+
 def huffman_random_stage(out, q, seed, err_filter, name):
     wd = os.path.join(WORK, out.prop)
     os.makedirs(wd, exist_ok=True)
@@ -799,6 +814,8 @@ def run_property(prop, tier, seed):
                      ["push", "push_from"])
         coded_stage(out, q, seed, lambda e: e["why"] in ("push-panicked", "read-failed", "read-differs", "read-back-differs",
                                                          "merge-panicked", "clear-panicked"))
+        dictionary_random_stage(out, q, seed, lambda e: e["why"] in ("push-panicked", "read-failed", "read-differs", "read-back-differs"),
+                                "dictionary-histories")
         coded_columns_stage(out, q, seed, lambda e: e["why"] in ("read-failed", "read-differs", "push-into-merged-panicked"))
         contract_trace_stage(out, ["C01"], q, seed)
     elif prop == "C02":
